@@ -319,21 +319,98 @@ def check_overflow(ctx, db):
     mp = [x for x in f.walk() if is_assign(x) and norm(x.child('lhs').text()).endswith('.min_point')]
     ok = any(a.k == 'IfStmt' and re.match(r'^point_less\(\(\*v?\w+\), \(\*\w+\.min_point\)\)$', norm(a.child('cond').text())) for x in mp for a in x.ancestors())
     ctx.check(ok, 'R-MINMAX', 'link_holes/min_point', f.loc(), 'each hole is attached at its lexicographically smallest vertex (running minimum by point_less)')
+    check_ray_hits(ctx, db, f)
     pl = db.fn('gdstk::point_less')
     ctx.check(norm(pl.body.c[0].child('value').text(clone.Renamer(pl, params_by_name=True))) == '(($p1.X < $p2.X) || (($p1.X == $p2.X) && ($p1.Y < $p2.Y)))', 'R-SHAPE', 'point_less/lexicographic', pl.loc(), 'point_less is the strict lexicographic order on (X, Y)')
+
+
+def _ival(e, env, fn):
+    """integer/boolean value of a comparison-and-difference expression over named ordinates (iterator->Y etc.); None = not evaluable"""
+    e = _strip_casts(e)
+    if e is None:
+        return None
+    if e.cv is not None and e.k != 'DeclRefExpr':
+        return e.cv
+    if e.k in ('MemberExpr', 'CXXOperatorCallExpr') or (e.k == 'UnaryOperator' and e.op == '*'):
+        t = norm(e.text()).replace('(*', '').replace(')', '').replace('->', '.').replace('.operator', '')
+        for k_, v in env.items():
+            if t.endswith(k_) or t.replace(' ', '') == k_:
+                return v
+        return None
+    if e.k == 'DeclRefExpr' and e.dk == 'local':
+        d = next((v for v in fn.body.walk() if v.k == 'VarDecl' and v.d == e.d and v.child('init') is not None), None)
+        return _ival(d.child('init'), env, fn) if d is not None else None
+    if e.k == 'UnaryOperator' and e.op in ('!', '-'):
+        v = _ival(e.child('sub'), env, fn)
+        return None if v is None else (int(not v) if e.op == '!' else -v)
+    if e.k == 'BinaryOperator':
+        a, b = _ival(e.child('lhs'), env, fn), _ival(e.child('rhs'), env, fn)
+        if e.op == '&&':
+            return 0 if (a == 0 or b == 0) else (None if (a is None or b is None) else 1)
+        if e.op == '||':
+            return 1 if ((a is not None and a != 0) or (b is not None and b != 0)) else (None if (a is None or b is None) else 0)
+        if a is None or b is None:
+            return None
+        import operator as O
+        fn_ = {'+': O.add, '-': O.sub, '*': O.mul, '<': O.lt, '>': O.gt, '<=': O.le, '>=': O.ge, '==': O.eq, '!=': O.ne}.get(e.op)
+        return None if fn_ is None else int(fn_(a, b))
+    return None
+
+
+def check_ray_hits(ctx, db, f):
+    """link_holes shoots a ray to the left of each hole's lowest-leftmost vertex and links the hole to the nearest hit of the outer
+    contour. Evaluated over all 27 orderings of (ordinate of the edge end p_next, of its start p_prev, of the ray): the crossing
+    branch is taken when the ray passes strictly between the end points AND when it passes exactly through the END vertex of an edge
+    that is not level (every contour vertex is the end of exactly one edge, so a hit in a corner is seen once); it is not taken when
+    both end points are on the same side. A hole level with a corner of its parent would otherwise find no link and be dropped."""
+    cand = None
+    for i in f.walk():
+        if i.k != 'IfStmt':
+            continue
+        t = norm(i.child('cond').text())
+        names = {x.n for x in i.child('cond').walk() if x.k == 'DeclRefExpr'}
+        # the temporaries a condition uses may hide the iterators: look through their initialisers
+        for x in list(i.child('cond').walk()):
+            if x.k == 'DeclRefExpr' and x.dk == 'local':
+                d = next((v for v in f.body.walk() if v.k == 'VarDecl' and v.d == x.d and v.child('init') is not None), None)
+                if d is not None:
+                    names |= {y.n for y in d.child('init').walk() if y.k == 'DeclRefExpr'}
+        if {'p_next', 'p_prev', 'hole_min'} <= names and i.child('else') is not None:
+            cand = i
+            break
+    if cand is None:
+        raise AnalysisBroken('link_holes: ray/edge crossing test not found')
+    import itertools
+    bad = None
+    n = 0
+    for pn, pp, h in itertools.product(range(3), repeat=3):
+        env = {'p_next.Y': pn, 'p_prev.Y': pp, 'hole_min.Y': h}
+        v = _ival(cand.child('cond'), env, f)
+        if v is None:
+            raise AnalysisBroken('link_holes: crossing test `%s` not evaluable' % norm(cand.child('cond').text())[:80])
+        n += 1
+        strictly_between = (pn < h < pp) or (pp < h < pn)
+        through_end = (pn == h and pp != h)
+        same_side = (pn < h and pp < h) or (pn > h and pp > h)
+        if (strictly_between or through_end) and not v:
+            bad = bad or ('the ray at ordinate %d is not counted for an edge from %d to %d%s' % (h, pp, pn, ' (it passes through the end vertex: a hole level with a corner of its parent finds no link)' if through_end else ''))
+        if same_side and v:
+            bad = bad or ('an edge from %d to %d is counted for a ray at %d that does not meet it' % (pp, pn, h))
+    ctx.explored['valuations'] += n
+    ctx.check(bad is None, 'R-TABLE', 'link_holes/ray-hits', cand.loc(), 'over all 27 orderings the crossing branch is taken exactly for edges the ray crosses or whose end vertex it passes through', bad)
 
 
 def run(ctx):
     db = ctx.db
     _DB['db'] = db
     from . import C14, C20
-    C14.check_translation_invariance(ctx, db)   # polygon_to_path orients operands by the sign of signed_area
-    C20.check_heap(ctx, db)                     # link_holes orders the holes of a contour with gdstk::sort
-    check_conversions(ctx, db)
-    check_boolean(ctx, db)
-    check_wrappers(ctx, db)
-    check_tree(ctx, db)
-    check_overflow(ctx, db)
+    ctx.attempt(C14.check_translation_invariance, ctx, db)# polygon_to_path orients operands by the sign of signed_area
+    ctx.attempt(C20.check_heap, ctx, db)# link_holes orders the holes of a contour with gdstk::sort
+    ctx.attempt(check_conversions, ctx, db)
+    ctx.attempt(check_boolean, ctx, db)
+    ctx.attempt(check_wrappers, ctx, db)
+    ctx.attempt(check_tree, ctx, db)
+    ctx.attempt(check_overflow, ctx, db)
 
 
 MANIFEST = dict(
